@@ -1,8 +1,15 @@
 """C15 -- past-to-future translation: testers track the past operators.
 
-prove:      coq/Properties/C15.v (theorems about the Gallina model
-            theories/L6Past/PastModel.v of omega/logic/past.py as repaired by
-            fixes/F5_F10.patch).
+prove:      tie T: the CURRENT omega/logic/past.py (Nodes.*.flatten,
+            _flatten_previous, _make_tester_for_previous, _flatten_since,
+            _flatten_until, translate; with the flatten methods of
+            omega/logic/ast.py and astutils it inherits) is translated into
+            Gallina (tools/py2coq_past.py -> coq/gen/PastGen.v) and
+            coq/GenProofs/PastBridge.v re-proves that the generated translate
+            equals the model; then coq/Properties/C15.v (theorems about the
+            Gallina model theories/L6Past/PastModel.v of omega/logic/past.py
+            as repaired by fixes/F5_F10.patch, restated for the generated
+            function).
 correspond: tie H.  Generated formulas (Boolean variables, constants,
             arithmetic comparisons as opaque atoms) are printed, translated by
             the REAL past.translate, the returned strings are parsed by the
@@ -41,7 +48,7 @@ import json
 import multiprocessing
 import os
 
-from vlib import core, past_gen as G, past_eval as E
+from vlib import core, past_gen as G, past_eval as E, past_tr_gen
 from vlib.core import Broken, Mismatch, Failing
 
 ID = 'C15'
@@ -583,14 +590,40 @@ def correspond(ctx):
 # ------------------------------------------------------------------ prove
 def prove(ctx):
     with ctx.coq_lock():
-        ctx.prove('Properties/C15.v')
+        # tie T: regenerate gen/PastGen.v from the current past.py / ast.py,
+        # then re-prove GenProofs/PastBridge.v (generated code = model) and
+        # the statements built on it
+        notes, templates = past_tr_gen.ensure_past(ctx)
+        ctx.checker_cmds.append(
+            'PYTHONPATH=tools python3 tools/vlib/past_tr_gen.py > '
+            'coq/gen/PastGen.v (translator tools/py2coq_past.py)')
+        ctx.prove_with_deps('Properties/C15.v')
+    ctx.extra['translation'] = dict(
+        sources=past_tr_gen.SOURCES, functions=past_tr_gen.FUNCTIONS,
+        generated='coq/gen/PastGen.v',
+        bridge='coq/GenProofs/PastBridge.v',
+        string_templates=[dict(where=w, text=' '.join(t.split()), read_as=r)
+                          for w, t, r in dict.fromkeys(templates)],
+        notes=notes)
     ctx.trusted.append(
-        'tie H (hand-written model theories/L6Past/PastModel.v of '
-        'omega/logic/past.py after fixes/F5_F10.patch); strings built by the '
-        'code are modelled by the trees the real parser gives for them; PLY '
-        'and astutils are outside the model; translate(debug=True) (sorted '
-        'conjuncts) and map_translate are not modelled; arithmetic '
-        'comparisons are opaque atoms')
+        'translator tie T: tools/py2coq_past.py (omega/logic/past.py flatten '
+        'methods, _flatten_previous/_since/_until, '
+        '_make_tester_for_previous, translate -> Gallina; the call protocol '
+        '(keywords, defaults, **kw) literally; `testers` threaded as state; '
+        'assert/raise -> None; formula strings read into trees by the fixed '
+        'template grammar listed in coq/gen/PastGen.v: parentheses group, ~ '
+        'and the postfix prime bind tighter than binary operators, pasted '
+        'formula strings are closed, == on formula strings is equality of '
+        'trees); everything not translated is a note in coq/gen/PastGen.v '
+        'and in the evidence')
+    ctx.trusted.append(
+        'tie H for what the translator does not cover: the parser (string -> '
+        'tree; PLY and astutils.Terminal), the reading of strings as trees '
+        '(checked here by parsing every returned string with the real '
+        'parser), omega.logic.syntax.conj (by meaning), '
+        'Nodes.Comparator/Arithmetic.flatten (arithmetic comparisons are '
+        'opaque atoms); translate(debug=True) (sorted conjuncts) and '
+        'map_translate are not modelled')
     ctx.trusted.append(
         'tools/vlib/past_eval.py (exhaustive solver of the real testers and '
         'direct past/future LTL semantics on finite and ultimately periodic '
